@@ -83,6 +83,20 @@ def evaluate(cfg, only=None, res=None):
             out.append(("C17/%s/prim2cons/modifies-its-input" % kind, "prim2cons changed the primitive arrays it was given", only or 0))
         if not all(np.array_equal(a, b) for a, b in zip(qin, qkeep)):
             out.append(("C17/%s/cons2prim/modifies-its-input" % kind, "cons2prim changed the conservative arrays it was given", only or 0))
+        # the same state handed over in other containers (tuple; 1D models: one stacked array): identical results, the container unchanged
+        for cname, mk in (("tuple", tuple),) + ((("stacked-array", lambda xs: np.array([np.asarray(x, float) for x in xs])),) if kind != "euler2d" else ()):
+            try:
+                cq, cp = mk([x.copy() for x in qkeep]), mk([x.copy() for x in prim_before])
+                with np.errstate(all="ignore"):
+                    b2, q2 = model.cons2prim(cq), model.prim2cons(cp)
+            except Exception as e:
+                out.append(("C17/%s/container/%s/raises" % (kind, cname), "cons2prim/prim2cons raised %r for a state given as a %s" % (e, cname), only or 0))
+                continue
+            if not all(np.array_equal(np.asarray(a), np.asarray(b), equal_nan=True) for a, b in zip(b2, back)) or \
+               not all(np.array_equal(np.asarray(a), np.asarray(b), equal_nan=True) for a, b in zip(q2, q)):
+                out.append(("C17/%s/container/%s/differs" % (kind, cname), "cons2prim/prim2cons of a state given as a %s differ from the results for the same state as a list" % cname, only or 0))
+            if not all(np.array_equal(np.asarray(a), b) for a, b in zip(cq, qkeep)) or not all(np.array_equal(np.asarray(a), b) for a, b in zip(cp, prim_before)):
+                out.append(("C17/%s/container/%s/modifies-its-input" % (kind, cname), "cons2prim/prim2cons changed the %s they were given" % cname, only or 0))
         qref = [R, R * U, P / gm + 0.5 * R * umag2]
         for k, nm in enumerate(("density", "momentum", "energy")):
             sc = np.abs(qref[k]) if k != 1 else R * (np.abs(M) * c + 1e-300)
